@@ -14,7 +14,7 @@ MANIFEST = {
     "text": "Coq model Model/Conversation.v composing the proved pieces (bind loop C15, request framing C13, receive loops C14, sealed replies C16, ept_map reply C18, GetKey stubs C11) "
             "into _sync_get_key / _async_get_key and the call sites of the four public functions; argument tuples, -1/-1/-1, contexts, tower, opnums, verification trailer and the "
             "fixed Bind fields are kernels / constants regenerated from the source. Theorems (Properties/C17.v): the GetKey stub sent is the NDR64 encoding (independent spec) of exactly "
-            "(target SD, root key id, L0, L1, L2) of the blob for unprotect and of (SD, optional root key id, -1, -1, -1) for protect, and that encoding is injective; the request is "
+            "(target SD, root key id, L0, L1, L2) of the blob for unprotect and of (SD, optional root key id, -1, -1, -1) for protect, and that encoding is injective; the ept_map request goes out in clear on context 0 / opnum 3 with the ISD_KEY tower; each bind offers exactly the static contexts; the request is "
             "sealed at level 6 with the ISD_KEY/NDR64 PCONTEXT|END verification trailer at the 4-byte boundary after the stub inside the sealed region; a reply is accepted only after "
             "a successful unwrap and then yields exactly the envelope a conforming DC marshalled. Tie: kernels + the public API (both flavours) run against an independent in-process "
             "reference DC (vlib/refdc.py; toy security context and real NTLM via pyspnego), transcript decoded by the DC's own decoders vs the extracted model.",
